@@ -272,7 +272,7 @@ let eval inp obs =
             | Some (op, id) when op > !seen -> Some (op, id) | _ -> None) run in
         match fresh with
         | [] -> PTick
-        | [(op, id)] -> if op <> !seen + 1 then fifo_ok := false; seen := op; PChunk (n_of_z (Z.of_int (op * 16 + id)))
+        | [(op, id)] -> seen := op; PChunk (n_of_z (Z.of_int (op * 16 + id)))
         | _ -> fifo_ok := false; PTick) runs in
     (* a routine run that passed the d.done guard just before Terminate() may log after X:
        also try every X moved behind the run that follows it *)
@@ -294,8 +294,29 @@ let eval inp obs =
       | Some i when t.[0] = 'I' -> String.sub t 0 i ^ String.sub t (String.index t ':') (String.length t - String.index t ':')
       | _ -> t in
     let impl_log = (try Some (List.map (fun t -> pev_of (strip t)) toks) with _ -> None) in
+    (* a notification whose chunk never shows up in a sweep was dropped: legitimate only if, at
+       some moment between the previous accepted notification and the next one, the model's
+       processing buffer held 2*parallel chunks or the leecher had stopped (trailing ones may
+       also have been cut off by the final Stop()) *)
+    let drops_ok evs =
+      let parn = Z.to_int (z_of_n par) in
+      let states = Array.make (List.length evs + 1) p_init in
+      List.iteri (fun i e -> states.(i + 1) <- fst (pstep par (script_oracle sc) states.(i) e)) evs;
+      let full s = List.length s.p_chunks >= 2 * parn || s.p_done in
+      let ok = ref true and last_op = ref (-1) and last_idx = ref 0 in
+      List.iteri (fun i e -> match e with
+          | PChunk id ->
+            let j = Z.to_int (z_of_n id) / 16 in
+            if j > !last_op + 1 then begin
+              let found = ref false in
+              for b = !last_idx to i do if full states.(b) then found := true done;
+              if not !found then ok := false
+            end;
+            last_op := j; last_idx := i + 1
+          | _ -> ()) evs;
+      !ok in
     let spec =
-      if good <> [] then peer_spec_ok par log && !fifo_ok
+      if good <> [] then peer_spec_ok par log && !fifo_ok && drops_ok (List.hd good)
       else (* no schedule of the model explains the log: the monitor judges the log as it is *)
         (match impl_log with Some l -> peer_spec_ok par l && !fifo_ok | None -> false) in
     { default_verdict with model_obs = mo; spec_ok = Some spec; model_spec_ok = peer_spec_ok par log;
